@@ -127,14 +127,43 @@ def plan_C01(seed, run, engine):
     rng = G.rng_for(seed, "C01", run)
     entry = _pick_entry(rng, B.C01_SOLVERS)
     degen = choice(rng, G.DEGEN_KINDS) if rng.random() < 0.15 else None
-    prob = G.gen_problem(rng, entry, degen=degen)
+    edit = entry[0] in B.SUPPORTS_INTERCEPT and True in entry[4] and rng.random() < 0.1
+    if edit:
+        # (half of these at a strength that leaves no coefficient in the model, with slack: the edit
+        # of the intercept then leaves every coefficient stationary whatever the column means are)
+        prob = G.gen_problem(rng, entry, degen=degen, fi=True,
+                             alpha_frac=choice(rng, [None, 1.3, 2.0], p=[.5, .25, .25]))
+    else:
+        prob = G.gen_problem(rng, entry, degen=degen)
     solver = entry[0]
     fi, p = prob["fi"], _p(prob)
     gs = _gscale(prob)
     ops = []
     mode = choice(rng, ["single", "crash_restart", "set_restart"], p=[.55, .3, .15])
     fault_rate = choice(rng, [0.0, 0.5, 1.0], p=[.4, .4, .2])
-    if mode == "single":
+    if edit and fi:
+        mode = "edit_restart"
+    if mode == "edit_restart":
+        # the user edits the intercept(s) of a converged solution and hands the pair back as a start
+        # point: the coefficients are stationary, only the intercept term of the stopping value can
+        # tell that the start point is not (per task for the multitask solver, any sign pattern)
+        k1 = G.gen_knobs(rng, solver, p, fi, gs, ample=True)
+        k1["fit_intercept"] = True
+        ops.append(dict(op="solve", start="cold_buf", knobs=k1, faults={}, storage=prob["storage"]))
+        if prob["family"]["datafit"] in ("Poisson", "Gamma", "Cox", "Logistic", "LogisticGroup"):
+            amp = choice(rng, [0.01, 0.1, 0.5])
+        else:
+            ym = float(np.abs(np.asarray(prob["data"]["y"], dtype=float)).mean() + 1e-3)
+            amp = ym * choice(rng, [0.01, 0.3, 1.0])
+        signs = [float(choice(rng, [-1.0, -0.6, 0.0, 0.5, 1.0], p=[.3, .25, .2, .1, .15])) for _ in range(3)]
+        if not any(signs):
+            signs[0] = -1.0
+        k2 = G.gen_knobs(rng, solver, p, fi, gs)
+        k2["fit_intercept"] = True
+        k2["max_iter"] = int(choice(rng, [1, 20, 100]))
+        ops.append(dict(op="solve", start="buffers", bump=[float(G.sig3(amp * sg, 4)) for sg in signs],
+                        knobs=k2, faults=G.gen_faults(rng, solver, fault_rate * 0.5), storage=prob["storage"]))
+    elif mode == "single":
         st, w0 = _start(rng, prob)
         ops.append(dict(op="solve", start=st, w0=w0, knobs=G.gen_knobs(rng, solver, p, fi, gs),
                         faults=G.gen_faults(rng, solver, fault_rate), storage=prob["storage"]))
